@@ -50,6 +50,20 @@ def _dispersive2(W, lt):
             arc = _si.quad(lambda t: _np.sqrt(1 + (2 * float(a) * t + float(b)) ** 2), 0, x)[0]
             if abs(y - (float(a) * x * x + float(b) * x)) > 1e-9 * (1 + abs(y)) or abs(arc - dist) > 1e-6 * (1 + abs(dist)):
                 return False
+            # ... and the element propagates end to end: the same field as an element that returns that displacement outright
+            class _Fixed:
+                def shift(self, xs=0., ys=0., **kw):
+                    return xs + x, ys + y
+            pup = lt.Pupil(amplitude=_np.ones((2, 3)), pixelscale=1.0, focal_length=1.0)
+            du = 4.0 * max(abs(x), abs(y), 1e-3)
+            w1 = lt.Wavefront(lam) * pup * dt
+            w2 = lt.Wavefront(lam) * pup
+            for fld in w2.data:
+                fld.tilt = [_Fixed()]
+            f1 = lt.propagate_dft(w1, pixelscale=du, shape=(4, 5)).field
+            f2 = lt.propagate_dft(w2, pixelscale=du, shape=(4, 5)).field
+            if f1.shape != f2.shape or not _np.allclose(f1, f2, rtol=1e-9, atol=1e-12):
+                return False
         return True
     W.ob_concrete('second-order dispersive element: on its trace at the signed arc length the dispersion maps to the wavelength', ok)
     W.ob('anchor', a + b, b + a)
